@@ -305,9 +305,16 @@ class DAGRunConcurrentManager(DAGRunManagerLike):
 
             branch_nodes[edge.get(EdgeField.case_branch)] = pred_id
 
+        try:
+            selected_node_id = branch_nodes[selected_branch_label]
+
+        except TypeError as ex:
+            # An unhashable label (a list, a dict) cannot be equal to the label of any case
+            raise KeyError(selected_branch_label) from ex
+
         self._node_storage.set_switch_result(
             switch_node_id,
-            CaseResult(label=selected_branch_label, node_id=branch_nodes[selected_branch_label]),
+            CaseResult(label=selected_branch_label, node_id=selected_node_id),
         )
 
     async def _execute_node(
